@@ -116,7 +116,14 @@ func (W *vWorld) statsLaws(c *vStatsCopy) bool {
 
 func vStatsScenario(kind int) {
 	W := vShapeFor(kind)
-	first := vPick("stats-called-before", 2) == 1
+	op := -1
+	if kind == 0 {
+		op = []int{0, 1, 2, 3, 5, 6, 8}[vPick("op", 7)]
+	}
+	// add / remove / exchange with ALL their choices (component lists in every order: new
+	// archetypes and graph nodes appear) are run with Stats called before and not in between
+	full := op >= 1 && op <= 3
+	first := full || vPick("stats-called-before", 2) == 1
 	if first {
 		W.w.Stats() // the stats object now holds (soon stale) figures
 	}
@@ -124,11 +131,9 @@ func vStatsScenario(kind int) {
 		W.cacheScenario(vPick("scenario", 10))
 	} else {
 		vMode = 1
-		vPickMax = 3
-		W.applyOp([]int{0, 1, 2, 3, 5, 6, 8}[vPick("op", 7)], "op")
-		vPickMax = 0
+		W.applyOp(op, "op")
 	}
-	if vPick("stats-called-between", 2) == 1 {
+	if !full && vPick("stats-called-between", 2) == 1 {
 		W.w.Stats()
 		if kind == 1 {
 			W.cacheScenario(vPick("scenario2", 10))
